@@ -4,7 +4,27 @@ from __future__ import annotations
 import numpy as np
 
 
+_LIVE = []
+
+
+def refresh():
+    """Re-create .jaxnodes/.jaxedges of every live module *outside* any trace: integrate()
+    calls to_jax() while being traced, which leaves dead tracers on the module that the next
+    trace would capture (through View construction)."""
+    for m in _LIVE:
+        try:
+            m.to_jax()
+        except Exception:
+            pass
+
+
 def build(name):
+    m = _build(name)
+    _LIVE.append(m)
+    return m
+
+
+def _build(name):
     import jaxley as jx
     from jaxley.channels import HH, Leak, Na, K, Km, CaL, CaT
     from jaxley.synapses import IonotropicSynapse, TanhRateSynapse, TestSynapse
@@ -50,12 +70,12 @@ def build(name):
         if name == "net2_tanh":
             connect(net.cell(0).branch(0).comp(0), net.cell(1).branch(1).comp(0), TanhRateSynapse())
         elif name == "net2_iono":
-            connect(net.cell(0).branch(0).comp(0), net.cell(1).branch(0).comp(1), IonotropicSynapse())
+            connect(net.cell(0).branch(0).comp(0), net.cell(1).branch(1).comp(1), IonotropicSynapse())
             connect(net.cell(1).branch(1).comp(0), net.cell(0).branch(1).comp(1), IonotropicSynapse())
         elif name == "net3_mixed":
             # two synapse types with interleaved creation order
             connect(net.cell(0).branch(0).comp(0), net.cell(1).branch(0).comp(0), IonotropicSynapse())
-            connect(net.cell(1).branch(0).comp(1), net.cell(2).branch(0).comp(0), TestSynapse())
+            connect(net.cell(1).branch(1).comp(1), net.cell(2).branch(0).comp(0), TestSynapse())
             connect(net.cell(2).branch(0).comp(0), net.cell(0).branch(1).comp(1), IonotropicSynapse())
             connect(net.cell(0).branch(1).comp(0), net.cell(1).branch(1).comp(0), TestSynapse())
         return net
